@@ -364,7 +364,8 @@ class MediaCombineDisallowed(Exception):
         return self.args[0]
 
     def _combinable(rule):
-        combinable = rule.COMMENT, rule.STYLE_RULE, rule.IMPORT_RULE
+        # (an @import still present could not be resolved and has to be kept)
+        combinable = rule.COMMENT, rule.STYLE_RULE
         return rule.type in combinable
 
 
